@@ -214,6 +214,15 @@ func (eng *Engine) VerifyFunction(fn *ssa.Function, cone map[string]bool) (run *
 		st.Assume(Lt(c, st.alloc))
 		run.entryVars["&"+fv.Name()] = CVal{T: c, Type: fv.Type()}
 	}
+	if fn.Synthetic == "package initializer" {
+		// the initialiser body runs once: the guard is false on entry
+		for _, m := range fn.Pkg.Members {
+			if g, ok := m.(*ssa.Global); ok && g.Name() == "init$guard" {
+				st.heap[compGlobal(g)] = TFalse
+				run.compSorts[compGlobal(g)] = SBool
+			}
+		}
+	}
 	run.entry = st.Snap()
 	// global invariants of the module's packages (established by init, kept by
 	// the frame.G obligations of every function)
